@@ -40,7 +40,19 @@ def make_env(kind, variant=0):
             tr.add_events([EventNBBO(g, a, pa * 0.999, pa * 1.001), EventNBBO(g, b, pb * 0.999, pb * 1.001)])
         return TradingEnv(action_space=BoxPortfolio([a, b], -1, 1), state=[LastPrices(a)], transmitter=tr,
                           broker_fees=BrokerFees(proportional=0.001, fixed=0.01), latency=0, steps_delay=variant % 2)
-    if kind == "chain":
+    if kind == "spot_latency":
+        a = ETF("AAA")
+        grid = [D0 + timedelta(hours=i + 30 * variant) for i in range(8)]
+        r = np.random.default_rng(200 + variant)
+        tr = Transmitter(grid)
+        p = 100.0
+        for g in grid:
+            p *= float(1 + r.normal(0, 0.02))
+            tr.add_events([EventNBBO(g, a, p * 0.999, p * 1.001),
+                           EventNBBO(g + timedelta(seconds=10), a, p * 1.02 * 0.999, p * 1.02 * 1.001),     # inside the latency window
+                           EventNBBO(g + timedelta(seconds=90), a, p * 0.98 * 0.999, p * 0.98 * 1.001)])
+        return TradingEnv(action_space=BoxPortfolio([a], -1, 1), state=[LastPrices(a)], transmitter=tr, latency=30, steps_delay=variant % 2)
+    if kind in ("chain", "chain_latency"):
         chain = FutureChain(ES, "2019-03", "2020-06")
         start = ["2019-02-20", "2019-08-20"][variant % 2]
         grid = list(pd.date_range(start, periods=8, freq="7D").to_pydatetime())
@@ -49,7 +61,8 @@ def make_env(kind, variant=0):
             for i, g in enumerate(grid):
                 if g < c.expiry:
                     tr.add_events([EventNBBO(g, c, 3000 + 5 * i + 20 * variant, 3001 + 5 * i + 20 * variant)])
-        return TradingEnv(action_space=BoxPortfolio([chain], -2, 2), transmitter=tr, state=[LastPrices(chain.contracts[0])])
+        return TradingEnv(action_space=BoxPortfolio([chain], -2, 2), transmitter=tr, state=[LastPrices(chain.contracts[0])],
+                          latency=(60 if kind == "chain_latency" else 0))
     raise ValueError(kind)
 
 
@@ -143,7 +156,7 @@ def isolation(tier, seed):
               "non-trivial = distinct (configuration, prefix / schedule)", "<= 7 steps per environment, 2 environments")
     n = 5 if tier == "quick" else 7
     base = {}
-    for kind in ("spot", "chain"):
+    for kind in ("spot", "chain", "spot_latency", "chain_latency"):
         for v in (0, 1):
             base[(kind, v)] = run_alone(kind, v, n)
     prefixes = [("complete",), ("abandon", 2), ("error",)] + ([("abandon", 1), ("abandon", 4)] if tier != "quick" else [])
@@ -162,7 +175,8 @@ def isolation(tier, seed):
             if d:
                 acc.fail("C10::shell::reset_reproduces", "c10_isolation", {"what": "reset", "kind": kind, "variant": v, "n": n, "prefix": list(p)}, d)
     r, _ = rng_of(seed)
-    pairs = [(("chain", 0), ("chain", 1)), (("spot", 0), ("chain", 1)), (("spot", 0), ("spot", 1))]
+    pairs = [(("chain", 0), ("chain", 1)), (("spot", 0), ("chain", 1)), (("spot", 0), ("spot", 1)),
+             (("chain_latency", 0), ("chain_latency", 1)), (("spot_latency", 0), ("chain_latency", 1))]
     scheds = {"round_robin": [0, 1] * (n + 2), "blocked": [0] * (n + 2) + [1] * (n + 2), "reverse_blocked": [1] * (n + 2) + [0] * (n + 2)}
     for i in range(2 if tier == "quick" else 8):
         s = [0] * (n + 2) + [1] * (n + 2)
